@@ -9,6 +9,7 @@ import (
 	"log"
 	"net/http"
 	"os"
+	"path"
 	"path/filepath"
 	"strings"
 )
@@ -217,10 +218,14 @@ func NewHttpFileSystemLoader(httpfs http.FileSystem, baseDir string) (*HttpFiles
 	return hfs, nil
 }
 
-// Abs in this instance simply returns the filename, since
-// there's no potential for an unexpanded path in an http.FileSystem
+// Abs resolves the filename relative to the referring template (base), like the other
+// loaders do; a rooted name, and a name without a referring template, is taken from
+// the root of the http.FileSystem.
 func (h *HttpFilesystemLoader) Abs(base, name string) string {
-	return name
+	if base == "" || strings.HasPrefix(name, "/") {
+		return name
+	}
+	return path.Join(path.Dir(base), name)
 }
 
 // Get returns an io.Reader where the template's content can be read from.
